@@ -44,7 +44,19 @@ def public(c: Dict[str, object]) -> Dict[str, object]:
     return {k: v for k, v in c.items() if not k.startswith("_")}
 
 
+_CACHE: Dict[tuple, List[Dict[str, object]]] = {}
+
+
 def method_effects(prog: Program, cls: ClassInfo, f: FuncInfo) -> List[Dict[str, object]]:
+    ck = (id(prog), cls.name, f.module.name, f.qualname)
+    if ck in _CACHE:
+        return _CACHE[ck]
+    out = _method_effects(prog, cls, f)
+    _CACHE[ck] = out
+    return out
+
+
+def _method_effects(prog: Program, cls: ClassInfo, f: FuncInfo) -> List[Dict[str, object]]:
     effs = extract(prog, f)
     names = class_var_names(prog, cls, effs)
     out = []
